@@ -212,3 +212,421 @@ theorem J_cNotify_all (s s' : St) (c : Nat) (ts : List Nat) (hnw : 0 < s.nw) (hK
     | running t => simp [active]
     | exited => exact absurd hpcw hne
 end Pool
+/-! remaining preservation lemmas for the bookkeeping invariant `Inv` (appended to pool2.lean for checking) -/
+namespace Pool
+
+theorem inv_wSleep (s s' : St) (w : Nat) (hi : Inv s) (h : step s (.wSleep w) = some s') : Inv s' := by
+  simp only [step] at h
+  split at h
+  · rename_i hc
+    obtain ⟨hw, hpc, _, _⟩ := hc
+    simp only [Option.some.injEq] at h; subst h
+    refine ⟨hi.q_nodup, hi.q_iff, ?_, hi.exec_le⟩
+    intro t v
+    simp only
+    by_cases hv : v = w
+    · subst hv
+      rw [upd_same]
+      constructor
+      · intro h1; have := ((hi.run_iff t v).mp h1).2; rw [hpc] at this; cases this
+      · rintro ⟨_, h2⟩; cases h2
+    · rw [upd_other _ _ _ _ hv]; exact hi.run_iff t v
+  · simp at h
+
+theorem inv_wWake (s s' : St) (w : Nat) (hi : Inv s) (h : step s (.wWake w) = some s') : Inv s' := by
+  simp only [step] at h
+  split at h
+  · rename_i hc
+    obtain ⟨hw, hpc⟩ := hc
+    simp only [Option.some.injEq] at h; subst h
+    refine ⟨hi.q_nodup, hi.q_iff, ?_, hi.exec_le⟩
+    intro t v
+    simp only
+    by_cases hv : v = w
+    · subst hv
+      rw [upd_same]
+      constructor
+      · intro h1; have := ((hi.run_iff t v).mp h1).2; rw [hpc] at this; cases this
+      · rintro ⟨_, h2⟩; cases h2
+    · rw [upd_other _ _ _ _ hv]; exact hi.run_iff t v
+  · simp at h
+
+theorem inv_wRunEnd (s s' : St) (w : Nat) (hi : Inv s) (h : step s (.wRunEnd w) = some s') : Inv s' := by
+  simp only [step] at h
+  split at h
+  · rename_i hw
+    split at h
+    · rename_i t hpc
+      simp only [Option.some.injEq] at h; subst h
+      have hts : s.ts t = .running w := (hi.run_iff t w).mpr ⟨hw, hpc⟩
+      refine ⟨hi.q_nodup, ?_, ?_, ?_⟩
+      · intro u
+        simp only
+        by_cases hu : u = t
+        · subst hu; rw [upd_same]
+          constructor
+          · intro hm; have := (hi.q_iff u).mp hm; rw [hts] at this; cases this
+          · intro h1; cases h1
+        · rw [upd_other _ _ _ _ hu]; exact hi.q_iff u
+      · intro u v
+        simp only
+        by_cases hu : u = t
+        · subst hu; rw [upd_same]
+          constructor
+          · intro h1; cases h1
+          · rintro ⟨hv, h2⟩
+            by_cases hvw : v = w
+            · subst hvw; rw [upd_same] at h2; cases h2
+            · rw [upd_other _ _ _ _ hvw] at h2
+              have := (hi.run_iff u v).mpr ⟨hv, h2⟩
+              rw [hts] at this; cases this; exact absurd rfl hvw
+        · rw [upd_other _ _ _ _ hu]
+          by_cases hvw : v = w
+          · subst hvw; rw [upd_same]
+            constructor
+            · intro h1
+              have := ((hi.run_iff u v).mp h1).2
+              rw [hpc] at this; cases this; exact absurd rfl hu
+            · rintro ⟨_, h2⟩; cases h2
+          · rw [upd_other _ _ _ _ hvw]; exact hi.run_iff u v
+      · intro u
+        simp only
+        by_cases hu : u = t
+        · subst hu; rw [upd_same]
+          have := hi.exec_le u; rw [hts] at this; simpa using this
+        · rw [upd_other _ _ _ _ hu]; exact hi.exec_le u
+    · simp at h
+  · simp at h
+end Pool
+namespace Pool
+
+/-- changing only non-running pcs to non-running pcs preserves the running bookkeeping -/
+theorem run_iff_of_wpc_eq (s : St) (wpc' : Nat → WPc) (hi : Inv s)
+    (h : ∀ v t, wpc' v = .running t ↔ s.wpc v = .running t) :
+    ∀ t w, s.ts t = .running w ↔ (w < s.nw ∧ wpc' w = .running t) := by
+  intro t w
+  rw [hi.run_iff t w, h w t]
+
+theorem inv_cNotify (s s' : St) (c : Nat) (w : Option Nat) (hi : Inv s) (h : step s (.cNotify c w) = some s') : Inv s' := by
+  simp only [step] at h
+  split at h
+  · -- pushed
+    split at h
+    · simp only [Option.some.injEq] at h; subst h
+      refine ⟨hi.q_nodup, hi.q_iff, ?_, hi.exec_le⟩
+      apply run_iff_of_wpc_eq s _ hi
+      intro v t
+      by_cases hs : s.wpc v = .sleeping
+      · simp [hs]
+      · simp [hs]
+    · split at h
+      · rename_i v
+        split at h
+        · rename_i hc
+          simp only [Option.some.injEq] at h; subst h
+          refine ⟨hi.q_nodup, hi.q_iff, ?_, hi.exec_le⟩
+          apply run_iff_of_wpc_eq s _ hi
+          intro u t
+          show upd s.wpc v WPc.ready u = WPc.running t ↔ s.wpc u = WPc.running t
+          by_cases hu : u = v
+          · subst hu; rw [upd_same, hc.2]; simp
+          · rw [upd_other _ _ _ _ hu]
+        · simp at h
+      · split at h
+        · simp only [Option.some.injEq] at h; subst h
+          exact ⟨hi.q_nodup, hi.q_iff, hi.run_iff, hi.exec_le⟩
+        · simp at h
+  · -- stopSet
+    simp only [Option.some.injEq] at h; subst h
+    refine ⟨hi.q_nodup, hi.q_iff, ?_, hi.exec_le⟩
+    apply run_iff_of_wpc_eq s _ hi
+    intro v t
+    by_cases hs : s.wpc v = .sleeping
+    · simp [hs]
+    · simp [hs]
+  · simp at h
+
+theorem inv_cReturn (s s' : St) (c : Nat) (hi : Inv s) (h : step s (.cReturn c) = some s') : Inv s' := by
+  simp only [step] at h
+  split at h
+  · split at h
+    · simp only [Option.some.injEq] at h; subst h
+      exact ⟨hi.q_nodup, hi.q_iff, hi.run_iff, hi.exec_le⟩
+    · simp at h
+  · simp at h
+
+theorem inv_dStop (s s' : St) (c : Nat) (hi : Inv s) (h : step s (.dStop c) = some s') : Inv s' := by
+  simp only [step] at h
+  split at h
+  · simp only [Option.some.injEq] at h; subst h
+    exact ⟨hi.q_nodup, hi.q_iff, hi.run_iff, hi.exec_le⟩
+  · simp at h
+
+theorem inv_dJoined (s s' : St) (c : Nat) (hi : Inv s) (h : step s (.dJoined c) = some s') : Inv s' := by
+  simp only [step] at h
+  split at h
+  · simp only [Option.some.injEq] at h; subst h
+    exact ⟨hi.q_nodup, hi.q_iff, hi.run_iff, hi.exec_le⟩
+  · simp at h
+end Pool
+namespace Pool
+
+theorem inv_wExit (s s' : St) (w : Nat) (hi : Inv s) (h : step s (.wExit w) = some s') : Inv s' := by
+  simp only [step] at h
+  split at h
+  · rename_i hc
+    obtain ⟨hw, hpc, _⟩ := hc
+    simp only [Option.some.injEq] at h; subst h
+    refine ⟨List.nodup_nil, ?_, ?_, ?_⟩
+    · intro t
+      show t ∈ ([] : List Nat) ↔ (if s.ts t = .queued then TS.dropped else s.ts t) = .queued
+      by_cases hq : s.ts t = .queued
+      · simp [hq]
+      · simp [hq]
+    · intro t v
+      show (if s.ts t = .queued then TS.dropped else s.ts t) = .running v ↔
+        (v < s.nw ∧ (if v = w then WPc.exited else if s.wpc v = .sleeping then WPc.ready else s.wpc v) = .running t)
+      have h1 : (if s.ts t = .queued then TS.dropped else s.ts t) = .running v ↔ s.ts t = .running v := by
+        by_cases hq : s.ts t = .queued
+        · simp [hq]
+        · simp [hq]
+      rw [h1, hi.run_iff t v]
+      by_cases hvw : v = w
+      · subst hvw; simp [hpc]
+      · by_cases hs : s.wpc v = .sleeping
+        · simp [hvw, hs]
+        · simp [hvw, hs]
+    · intro t
+      show s.exec t = (match (if s.ts t = .queued then TS.dropped else s.ts t) with | .running _ => 1 | .done => 1 | _ => 0)
+      have := hi.exec_le t
+      by_cases hq : s.ts t = .queued
+      · simp [hq] at this ⊢; exact this
+      · simp only [hq, if_false]; exact this
+  · simp at h
+
+theorem inv_cPush (s s' : St) (c : Nat) (ts : List Nat) (all : Bool) (hi : Inv s)
+    (h : step s (.cPush c ts all) = some s') : Inv s' := by
+  simp only [step] at h
+  split at h
+  · rename_i hc
+    obtain ⟨_, hfresh, hnd, _⟩ := hc
+    simp only [Option.some.injEq] at h; subst h
+    refine ⟨?_, ?_, ?_, ?_⟩
+    · refine List.nodup_append.mpr ⟨hi.q_nodup, hnd, ?_⟩
+      intro a ha b hb hab
+      subst hab
+      have h1 := (hi.q_iff a).mp ha
+      rw [hfresh a hb] at h1; cases h1
+    · intro t
+      show t ∈ s.queue ++ ts ↔ (if t ∈ ts then TS.queued else s.ts t) = .queued
+      by_cases ht : t ∈ ts
+      · simp [ht]
+      · simp [ht, hi.q_iff t]
+    · intro t v
+      show (if t ∈ ts then TS.queued else s.ts t) = .running v ↔ (v < s.nw ∧ s.wpc v = .running t)
+      by_cases ht : t ∈ ts
+      · simp only [ht, if_true]
+        constructor
+        · intro h1; cases h1
+        · intro h2
+          have := (hi.run_iff t v).mpr h2
+          rw [hfresh t ht] at this; cases this
+      · simp only [ht, if_false]; exact hi.run_iff t v
+    · intro t
+      show s.exec t = (match (if t ∈ ts then TS.queued else s.ts t) with | .running _ => 1 | .done => 1 | _ => 0)
+      have := hi.exec_le t
+      by_cases ht : t ∈ ts
+      · simp only [ht, if_true]; rw [hfresh t ht] at this; exact this
+      · simp only [ht, if_false]; exact this
+  · simp at h
+
+/-- every reachable state satisfies the bookkeeping invariant -/
+theorem inv_step (s s' : St) (e : Ev) (hi : Inv s) (h : step s e = some s') : Inv s' := by
+  cases e with
+  | wTake w => exact inv_wTake s s' w hi h
+  | wSleep w => exact inv_wSleep s s' w hi h
+  | wExit w => exact inv_wExit s s' w hi h
+  | wRunEnd w => exact inv_wRunEnd s s' w hi h
+  | wWake w => exact inv_wWake s s' w hi h
+  | cPush c ts all => exact inv_cPush s s' c ts all hi h
+  | cNotify c w => exact inv_cNotify s s' c w hi h
+  | cReturn c => exact inv_cReturn s s' c hi h
+  | dStop c => exact inv_dStop s s' c hi h
+  | dJoined c => exact inv_dJoined s s' c hi h
+
+def run : St → List Ev → Option St
+  | s, [] => some s
+  | s, e :: es => match step s e with
+    | none => none
+    | some s' => run s' es
+
+theorem inv_run (es : List Ev) : ∀ (s s' : St), Inv s → run s es = some s' → Inv s' := by
+  induction es with
+  | nil => intro s s' hi h; simp [run] at h; subst h; exact hi
+  | cons e es ih =>
+    intro s s' hi h
+    simp only [run] at h
+    split at h
+    · simp at h
+    · rename_i s1 hs1
+      exact ih s1 s' (inv_step s s1 e hi hs1) h
+
+/-- in every reachable state each task has been executed at most once, and exactly once if done -/
+theorem executed_at_most_once (es : List Ev) (s s' : St) (hi : Inv s) (h : run s es = some s') (t : Nat) :
+    s'.exec t ≤ 1 ∧ (s'.ts t = .done → s'.exec t = 1) := by
+  have := (inv_run es s s' hi h).exec_le t
+  constructor
+  · rw [this]; split <;> simp
+  · intro hd; rw [this, hd]
+end Pool
+#print axioms Pool.executed_at_most_once
+namespace Pool
+
+theorem exists_active_or_all_exited (nw : Nat) (wpc : Nat → WPc) (hns : ∀ v, v < nw → wpc v ≠ .sleeping) :
+    (∃ w, w < nw ∧ active (wpc w) = true) ∨ (∀ w, w < nw → wpc w = .exited) := by
+  by_cases hall : ∀ w, w < nw → wpc w = .exited
+  · exact Or.inr hall
+  · left
+    obtain ⟨w, hw⟩ := Classical.not_forall.mp hall
+    obtain ⟨hwlt, hne⟩ := Classical.not_imp.mp hw
+    refine ⟨w, hwlt, ?_⟩
+    cases hpcw : wpc w with
+    | ready => simp [active]
+    | sleeping => exact absurd hpcw (hns w hwlt)
+    | running t => simp [active]
+    | exited => exact absurd hpcw hne
+
+theorem J_step (s s' : St) (e : Ev) (hj : J s) (h : step s e = some s') : J s' := by
+  cases e with
+  | wSleep w => exact J_wSleep s s' w h
+  | wTake w =>
+    simp only [step] at h
+    split at h
+    · rename_i hc
+      split at h
+      · simp at h
+      · simp only [Option.some.injEq] at h; subst h
+        intro _
+        exact Or.inl ⟨w, hc.1, by simp [upd_same, active]⟩
+    · simp at h
+  | wExit w =>
+    simp only [step] at h
+    split at h
+    · simp only [Option.some.injEq] at h; subst h
+      intro _
+      have := exists_active_or_all_exited s.nw
+        (fun v => if v = w then WPc.exited else if s.wpc v = .sleeping then WPc.ready else s.wpc v)
+        (by
+          intro v _
+          by_cases hvw : v = w
+          · simp [hvw]
+          · by_cases hs : s.wpc v = .sleeping
+            · simp [hvw, hs]
+            · simp [hvw, hs])
+      rcases this with h1 | h1
+      · exact Or.inl h1
+      · exact Or.inr (Or.inr h1)
+    · simp at h
+  | wRunEnd w =>
+    simp only [step] at h
+    split at h
+    · rename_i hw
+      split at h
+      · simp only [Option.some.injEq] at h; subst h
+        intro _
+        exact Or.inl ⟨w, hw, by simp [upd_same, active]⟩
+      · simp at h
+    · simp at h
+  | wWake w =>
+    simp only [step] at h
+    split at h
+    · rename_i hc
+      simp only [Option.some.injEq] at h; subst h
+      intro _
+      exact Or.inl ⟨w, hc.1, by simp [upd_same, active]⟩
+    · simp at h
+  | cPush c ts all =>
+    simp only [step] at h
+    split at h
+    · simp only [Option.some.injEq] at h; subst h
+      intro _
+      exact Or.inr (Or.inl ⟨c, by simp [upd_same, owesNotify]⟩)
+    · simp at h
+  | dStop c =>
+    simp only [step] at h
+    split at h
+    · simp only [Option.some.injEq] at h; subst h
+      intro _
+      exact Or.inr (Or.inl ⟨c, by simp [upd_same, owesNotify]⟩)
+    · simp at h
+  | cNotify c w =>
+    simp only [step] at h
+    split at h
+    · split at h
+      · -- notify_all
+        simp only [Option.some.injEq] at h; subst h
+        intro _
+        have := exists_active_or_all_exited s.nw (fun v => if s.wpc v = .sleeping then WPc.ready else s.wpc v)
+          (by intro v _; by_cases hs : s.wpc v = .sleeping <;> simp [hs])
+        rcases this with h1 | h1
+        · exact Or.inl h1
+        · exact Or.inr (Or.inr h1)
+      · split at h
+        · rename_i v
+          split at h
+          · rename_i hc
+            simp only [Option.some.injEq] at h; subst h
+            intro _
+            exact Or.inl ⟨v, hc.1, by simp [upd_same, active]⟩
+          · simp at h
+        · split at h
+          · rename_i hc
+            simp only [Option.some.injEq] at h; subst h
+            intro _
+            have := exists_active_or_all_exited s.nw s.wpc hc
+            rcases this with h1 | h1
+            · exact Or.inl h1
+            · exact Or.inr (Or.inr h1)
+          · simp at h
+    · simp only [Option.some.injEq] at h; subst h
+      intro _
+      have := exists_active_or_all_exited s.nw (fun v => if s.wpc v = .sleeping then WPc.ready else s.wpc v)
+        (by intro v _; by_cases hs : s.wpc v = .sleeping <;> simp [hs])
+      rcases this with h1 | h1
+      · exact Or.inl h1
+      · exact Or.inr (Or.inr h1)
+    · simp at h
+  | cReturn c =>
+    simp only [step] at h
+    split at h
+    · rename_i ts hpc
+      split at h
+      · simp only [Option.some.injEq] at h; subst h
+        intro hprem
+        rcases hj hprem with h1 | ⟨c', hc'⟩ | h1
+        · exact Or.inl h1
+        · refine Or.inr (Or.inl ⟨c', ?_⟩)
+          have hne : c' ≠ c := by
+            intro heq; subst heq; rw [hpc] at hc'; simp [owesNotify] at hc'
+          show owesNotify (upd s.cpc c CPc.finished c') = true
+          rw [upd_other _ _ _ _ hne]; exact hc'
+        · exact Or.inr (Or.inr h1)
+      · simp at h
+    · simp at h
+  | dJoined c =>
+    simp only [step] at h
+    split at h
+    · rename_i hc
+      simp only [Option.some.injEq] at h; subst h
+      intro hprem
+      rcases hj hprem with h1 | ⟨c', hc'⟩ | h1
+      · exact Or.inl h1
+      · refine Or.inr (Or.inl ⟨c', ?_⟩)
+        have hne : c' ≠ c := by
+          intro heq; subst heq; rw [hc.1] at hc'; simp [owesNotify] at hc'
+        show owesNotify (upd s.cpc c CPc.finished c') = true
+        rw [upd_other _ _ _ _ hne]; exact hc'
+      · exact Or.inr (Or.inr h1)
+    · simp at h
+end Pool
+#print axioms Pool.J_step
